@@ -549,6 +549,20 @@ Arguments View {A} _ _.
 Arguments vshape {A} _.
 Arguments vat {A} _ _.
 
+(* ---------- API defaults (arguments omitted by the caller) ----------
+   Model: the default template arguments of the headers — view::trace / view::diagonal / array::trace / array::diagonal:
+   offset_t = ct<0>, axis1_t = ct<0>, axis2_t = ct<1>; view::tensordot / array::tensordot: axes_t = ct<2>. *)
+Definition default_offset : Z := 0.
+Definition default_axis1 : Z := 0.
+Definition default_axis2 : Z := 1.
+Definition default_tensordot_axes : nat := 2.
+(* Spec: NumPy's documented signatures numpy.trace(a, offset=0, axis1=0, axis2=1), numpy.diagonal(a, offset=0, axis1=0,
+   axis2=1), numpy.tensordot(a, b, axes=2) *)
+Definition np_default_offset : Z := 0.
+Definition np_default_axis1 : Z := 0.
+Definition np_default_axis2 : Z := 1.
+Definition np_default_tensordot_axes : nat := 2.
+
 (* ---------- the integer instance run by the correspondence ---------- *)
 Definition z_matmul_v1 := matmul_v1 Z 0 Z.add Z.mul.
 Definition z_matmul_v2 := matmul_v2 Z 0 Z.add Z.mul.
